@@ -10,7 +10,7 @@ Extraction "model.ml"
   Strings.to_lower Strings.trim_space Strings.fields Strings.equal_fold Strings.quote_to_ascii_body
   Escape.escape Escape.unescape Escape.escape_comment
   Tokenizer.tokenize Tokenizer.render1
-  Url.valid_url Style.remove_unicode Style.sanitize_styles RecCheck.rc_sets KwHandler.kw_shape_handler GenCss.css_kw_handlers GenCss.css_acceptors
+  Url.valid_url Style.remove_unicode Style.sanitize_styles RecCheck.rc_sets KwHandler.build_handlers GenCss.css_handler_defs GenCss.css_acceptors
   Attrs.is_data_attribute Attrs.linkable Attrs.sanitize_attrs Attrs.allow_no_attrs
   Loop.normalise Loop.run Loop.sanitize_bytes Loop.element_policies
   Builder.new_policy Builder.apply Builder.build
